@@ -2,6 +2,8 @@ package bitcoin_reader
 
 import (
 	"bytes"
+	"fmt"
+	"time"
 
 	"github.com/tokenized/bitcoin_reader/headers"
 	"github.com/tokenized/pkg/bitcoin"
@@ -193,3 +195,107 @@ func VerifC15Block() {
 }
 
 type bytesBuffer = bytes.Buffer
+
+func init() {
+	verifHarnesses["VerifC15Session"] = VerifC15Session
+}
+
+// VerifC15Session: a whole session of the real node (read, send, ping and handshake threads) over
+// a scripted connection: the peer sends a few messages that make the node reply and then closes,
+// while the manager may stop the node at any moment. Under every interleaving (bounded
+// preemptions) no goroutine panics and run returns with the node stopped.
+func VerifC15Session() {
+	nmsg := verifParam("messages", 1)
+	e := newNetEnv(true)
+	var in []byte
+	for i := 0; i < nmsg; i++ {
+		switch pick(fmt.Sprintf("msg%d", i), 3) {
+		case 0:
+			in = append(in, frameMsg(wire.CmdPing, encodeMsg(wire.NewMsgPing(nondetU64(fmt.Sprintf("nonce%d", i)))), false)...)
+		case 1:
+			in = append(in, frameMsg(wire.CmdVerAck, nil, false)...)
+		case 2:
+			me := wire.NewNetAddressIPPort([]byte{0, 0, 0, 0, 0, 0, 0, 0, 0, 0, 0xff, 0xff, 1, 2, 3, 4}, 8333, 0)
+			in = append(in, frameMsg(wire.CmdVersion, encodeMsg(wire.NewMsgVersion(me, me, 7, 100)), false)...)
+		}
+	}
+	e.conn.in = in
+	done := make(chan error, 1)
+	go func() { done <- e.node.run(e.ctx, e.intr) }()
+	if nondetBool("manager-stops-node") {
+		close(e.intr)
+		verifReach("stopped-by-manager")
+	}
+	returned := false
+	if verifInEngine() {
+		verifQuiesce()
+		select {
+		case <-done:
+			returned = true
+		default:
+		}
+	} else {
+		select {
+		case <-done:
+			returned = true
+		case <-time.After(10 * time.Second):
+		}
+	}
+	switch {
+	case returned:
+		verifReach("run-returned")
+		verifAssert(e.node.IsStopped(), "run-returned-but-node-not-stopped")
+		verifAssert(!e.node.IsReady(), "stopped-node-still-ready")
+	default:
+		verifAssert(false, "run-does-not-return-after-connection-closed")
+	}
+	verifReach("done")
+}
+
+func init() {
+	verifHarnesses["VerifC15StopRace"] = VerifC15StopRace
+}
+
+// VerifC15StopRace: the node is stopped (connection and outgoing queue closed) while the handler
+// of a message that makes the node reply is running, under every interleaving with bounded
+// preemptions: no goroutine panics, the handler returns, Stop returns.
+func VerifC15StopRace() {
+	e := newNetEnv(true)
+	var cmd string
+	var payload []byte
+	switch pick("message", 4) {
+	case 0: // ping -> pong, at any stage
+		if nondetBool("ready") {
+			e.makeReady()
+		}
+		cmd, payload = wire.CmdPing, encodeMsg(wire.NewMsgPing(nondetU64("nonce")))
+	case 1: // getaddr -> addr
+		e.makeReady()
+		cmd = wire.CmdGetAddr
+	case 2: // inv -> getdata
+		e.makeReady()
+		m := wire.NewMsgInv()
+		var h bitcoin.Hash32
+		h[0] = 3
+		m.AddInvVect(wire.NewInvVect(wire.InvTypeTx, &h))
+		cmd, payload = m.Command(), encodeMsg(m)
+	case 3: // verifying headers reply -> accept -> sendheaders, getaddr, getheaders, addr
+		e.node.handshakeIsComplete.Store(true)
+		e.headers.verifyOK = func(h *wire.BlockHeader) bool { return true }
+		m := wire.NewMsgHeaders()
+		m.AddBlockHeader(&wire.BlockHeader{Version: 1, Timestamp: 1600000000, Bits: 0x1d00ffff})
+		cmd, payload = m.Command(), encodeMsg(m)
+	}
+	e.conn.in = frameMsg(cmd, payload, false)
+	stopped := make(chan bool, 1)
+	go func() {
+		e.node.Stop(e.ctx)
+		stopped <- true
+	}()
+	err := e.node.handleMessage(e.ctx, e.conn)
+	<-stopped
+	verifObserve("race", cmd)
+	_ = err // an error only closes this connection
+	verifAssert(e.conn.closed, "stopped-connection-not-closed")
+	verifReach("done")
+}
